@@ -163,15 +163,8 @@ Next == k < Len(Templates) /\ k' = k + 1
 Spec == Init /\ [][Next]_k
 
 \* rule defects of the statement forms that the echo of s runs into (the repairs "repaired" makes)
-RECURSIVE AnnFraction(_)
-AnnFraction(T) ==
-  CASE T[1] = "tpow" -> (T[3] > 0 /\ T[4] # 1) \/ AnnFraction(T[2])
-    [] T[1] \in {"tmul", "tdiv"} -> AnnFraction(T[2]) \/ AnnFraction(T[3])
-    [] T[1] = "tlist" -> AnnFraction(T[2])
-    [] T[1] = "tfn" -> AnnFraction(T[3]) \/ \E i \in 1..Len(T[2]) : AnnFraction(T[2][i])
-    [] OTHER -> FALSE
 RtTags(rt, quantifiers) ==
-  CASE rt[1] = "ann" -> IF AnnFraction(rt[2]) THEN {"stmt/annotation-fraction-exponent"} ELSE {}
+  CASE rt[1] = "ann" -> {}
     [] rt[1] = "implicit" -> {"stmt/implicit-dimension"}
     [] rt[1] = "inf" -> (IF quantifiers /\ rt[2] # << >> THEN {"stmt/polymorphic-annotation"} ELSE {})
                         \cup (IF Len(rt[3]) >= 2 /\ ~(quantifiers /\ rt[2] # << >>) THEN {"stmt/dimension-alternatives"} ELSE {})
@@ -182,10 +175,8 @@ StmtTags(s) ==
     [] s[1] = "sfn" -> UNION { RtTags(s[4][i][2], FALSE) : i \in 1..Len(s[4]) } \cup RtTags(s[5], FALSE)
                        \cup (IF s[6] = None THEN {} ELSE ExprTags(s[6][2]))
                        \cup UNION { RtTags(s[7][i][2], FALSE) \cup ExprTags(s[7][i][3]) : i \in 1..Len(s[7]) }
-    [] s[1] = "sunit" -> (IF \E i \in 1..Len(s[2]) : s[2][i][1] \in {"name", "url", "description"} THEN {"stmt/decorator-string"} ELSE {})
-                         \cup RtTags(s[4], FALSE) \cup (IF s[5] = None THEN {} ELSE ExprTags(s[5][2]))
-    [] s[1] = "sdim" -> IF \E i \in 1..Len(s[3]) : AnnFraction(s[3][i]) THEN {"stmt/annotation-fraction-exponent"} ELSE {}
-    [] s[1] = "sstruct" -> IF s[3] # << >> THEN {"stmt/struct-type-parameters"} ELSE {}
+    [] s[1] = "sunit" -> RtTags(s[4], FALSE) \cup (IF s[5] = None THEN {} ELSE ExprTags(s[5][2]))
+    [] s[1] \in {"sdim", "sstruct"} -> {}
 TagSeq(X) == LET RECURSIVE Lst(_)
                  Lst(Y) == IF Y = {} THEN << >> ELSE LET e == CHOOSE x \in Y : TRUE IN <<e>> \o Lst(Y \ {e})
              IN Lst(X)
